@@ -40,6 +40,34 @@ class Shift(Op):
         back = shifted - d
         if not (back == rec):
             problems.append("(r + d) - d != r: %s vs %s" % (back, rec))
+        # the recurrence with the same repetitions and interval whose anchor point(s) are moved by d
+        from metomi.isodatetime.data import TimeRecurrence
+        reps, start, dur, end = a[1]
+        kw = {}
+        if reps is not None:
+            kw["repetitions"] = reps
+        if start is not None:
+            kw["start_point"] = T.mk_tp(start) + d
+        if dur is not None:
+            kw["duration"] = T.mk_dur(dur)
+        if end is not None:
+            kw["end_point"] = T.mk_tp(end) + d
+        moved = TimeRecurrence(**kw)
+        if not (shifted == moved) or hash(shifted) != hash(moved):
+            problems.append("r + d = %s is not the recurrence with the anchors moved, %s" % (shifted, moved))
+        else:
+            pm = []
+            for i, pt in enumerate(moved):
+                pm.append(pt)
+                if i + 1 >= K:
+                    break
+            ps = []
+            for i, pt in enumerate(shifted):
+                ps.append(pt)
+                if i + 1 >= K:
+                    break
+            if R.canon_pts(pm) != R.canon_pts(ps):
+                problems.append("r + d iterates differently from the recurrence with the anchors moved")
         pts0, pts1 = [], []
         for i, p in enumerate(rec):
             pts0.append(p)
